@@ -73,3 +73,25 @@ package capacity_policy
 //@   ensures result != nil
 //@   ensures result.IsSchedulable == old(job.Preemptibility == v2alpha2.Preemptible || (forall n int :: 0 <= n && n < utils.depth(job.Queue) ==> withinQuota(cp.queues[utils.anc(job.Queue, n)], requestedShare)))
 //@ end
+
+// ---- requested quantities of a set of tasks ------------------------------------------------------
+// reqCpu(n)/reqMem(n)/reqGpu(n): prefix sums over the first n tasks of THE tasksToAllocate argument
+// (let-bound by the `requires sumsOf(...)` clause of each function that takes such a slice).
+//@ declare reqCpu(n int) real
+//@ declare reqMem(n int) real
+//@ declare reqGpu(n int) real
+//@ define tasksOK(tasks []*pod_info.PodInfo) bool = forall i int :: 0 <= i && i < len(tasks) ==> tasks[i] != nil && tasks[i].ResReq != nil
+//@ define sumsOf(tasks []*pod_info.PodInfo) bool = reqCpu(0) == 0.0 && reqMem(0) == 0.0 && reqGpu(0) == 0.0 && (forall i int :: 0 <= i && i < len(tasks) ==> reqCpu(i+1) == reqCpu(i) + tasks[i].ResReq.milliCpu && reqMem(i+1) == reqMem(i) + tasks[i].ResReq.memory && reqGpu(i+1) == reqGpu(i) + tasks[i].ResReq.GetGpusQuota())
+
+// The quantity checked for a job = component-wise sum of cpu, memory and total GPU quota of the tasks.
+//@ func getRequiredQuota
+//@   props C08 C10
+//@   requires tasksOK(tasksToAllocate) && sumsOf(tasksToAllocate)
+//@   fresh
+//@   loop 1
+//@     invariant 0 - 1 <= rangeindex && rangeindex < len(tasksToAllocate)
+//@     invariant quota.MilliCPU == reqCpu(rangeindex + 1) && quota.Memory == reqMem(rangeindex + 1) && quota.GPU == reqGpu(rangeindex + 1)
+//@   ensures result != nil
+//@   ensures result.MilliCPU == reqCpu(len(tasksToAllocate)) && result.Memory == reqMem(len(tasksToAllocate))
+//@   ensures [gpu] result.GPU == reqGpu(len(tasksToAllocate))
+//@ end
